@@ -280,7 +280,8 @@ func (g *gen) inlineContent(n int) {
 			g.word()
 		case x < 0.19 && g.inInl < 2 && g.depth < 5:
 			g.inlineBlock()
-		case x < 0.205 && g.oofOK && !g.inHide && !g.inHdr && g.inInl < 2:
+		// a float is never the child of an inline box (finding float-in-inline-box-duplicated)
+		case x < 0.205 && g.oofOK && !g.inHide && !g.inHdr && g.inInl == 0:
 			g.float(true)
 		case x < 0.215 && g.oofOK && !g.inHide && !g.inHdr && g.inInl < 2:
 			g.abs(true)
@@ -1120,7 +1121,9 @@ func (g *gen) plainTable(bodyV float64) bool {
 	}
 	b := 1 + g.r.Intn(2)
 	p := g.r.Intn(4)
-	spacing := g.r.Intn(4)
+	// border-spacing 0: with a positive spacing a row that fits exactly is rejected as a whole
+	// (row bottom + spacing overflows) and the groups are dropped for that page
+	spacing := 0
 	tb := g.r.Intn(3)
 	orph := 1 + g.r.Intn(2)
 	wid := 1 + g.r.Intn(2)
@@ -1148,7 +1151,9 @@ func (g *gen) plainTable(bodyV float64) bool {
 		g.sb.WriteString("<" + tag + attrs(gid, nil) + ">")
 		f := g.enter("hdr", gid, false)
 		f.Table = tid
-		f.Strict = true
+		// not strict: CSS lets the user agent repeat the groups or not ("may repeat"), and webrender
+		// drops them on a page where no row fits beside them; they must be complete wherever they
+		// are, at most once per page fragment, and at least once overall
 		for r := 0; r < rows; r++ {
 			g.sb.WriteString("<tr>")
 			for c := 0; c < cols; c++ {
